@@ -90,3 +90,20 @@ int fx_fmt_use(fx_out_t out, char *buffer, size_t maxlen) {
         return rc;
     return fx_fmt_pad_dropped(out, buffer, (size_t)rc, maxlen, 8);
 }
+
+/* a null argument the function tests for must be reported, not dereferenced first */
+int _fxnull_late_chk(char *dest, size_t dmax, const char *src, size_t *lenp) {
+    const char *e = src + *lenp;                 /* read through lenp before the test below */
+    if (dest == NULL) { invoke_safe_str_constraint_handler("fxnull: dest is null", NULL, 400); return 400; }
+    if (lenp == NULL) { invoke_safe_str_constraint_handler("fxnull: lenp is null", NULL, 400); return 400; }
+    *lenp = (size_t)(e - src);
+    return 0;
+}
+int _fxnull_ok_chk(char *dest, size_t dmax, const char *src, size_t *lenp) {
+    const char *e;
+    if (dest == NULL) { invoke_safe_str_constraint_handler("fxnull: dest is null", NULL, 400); return 400; }
+    if (lenp == NULL) { invoke_safe_str_constraint_handler("fxnull: lenp is null", NULL, 400); return 400; }
+    e = src + *lenp;
+    *lenp = (size_t)(e - src);
+    return 0;
+}
